@@ -650,9 +650,14 @@ pub fn explore<const N: usize>(sc: &Scope, w: &mut impl std::io::Write) -> Stats
 
 /// every index shape `(ri, wi)` at a moderate size, distinct byte values in `mem`, a fixed set of calls with
 /// boundary arguments: covers index-arithmetic that only goes wrong for particular offset/length combinations
-pub fn grid<const N: usize>(w: &mut impl std::io::Write) -> usize {
+pub fn grid<const N: usize>(variant: usize, w: &mut impl std::io::Write) -> usize {
     let mut n = 0;
-    let mem: Vec<u8> = (0..N).map(|i| if i % 5 == 3 { b'\n' } else { 0x41 + (i as u8 % 26) }).collect();
+    let mem: Vec<u8> = match variant {
+        0 => (0..N).map(|i| if i % 5 == 3 { b'\n' } else { 0x41 + (i as u8 % 26) }).collect(),
+        // high bytes, equal neighbours, CR LF pairs and NULs at varying alignments
+        1 => (0..N).map(|i| match i % 11 { 3 => b'\r', 4 => b'\n', 7 => 0, 8 | 9 => 0x80 + (i as u8 / 11), _ => 0xf0u8.wrapping_add(i as u8) }).collect(),
+        _ => (0..N).map(|i| if i % 9 == 8 { b'\n' } else { 0x7f }).collect(),
+    };
     for wi in 0..=N {
         for ri in 0..=wi {
             if ri == wi && ri > 0 {
@@ -696,6 +701,89 @@ pub fn grid<const N: usize>(w: &mut impl std::io::Write) -> usize {
             ops.dedup();
             for op in &ops {
                 transition(&b, &s, op, w);
+                n += 1;
+            }
+        }
+    }
+    n
+}
+
+/// large buffers: every index shape, a handful of calls (thresholds / block sizes that only large offsets reach)
+pub fn grid_lite<const N: usize>(dense: bool, w: &mut impl std::io::Write) -> usize {
+    let mut n = 0;
+    let mem: Vec<u8> = (0..N).map(|i| (i as u8).wrapping_mul(7).wrapping_add(1)).collect();
+    for ri in 0..=N {
+        // unread lengths: small ones, every multiple of 8 (and its neighbours), the read offset itself (and its neighbours),
+        // and whatever reaches the end of the buffer
+        let mut lens: Vec<usize> = (0..=9).collect();
+        let mut m = 8;
+        while m <= N {
+            lens.extend([m - 1, m, m + 1]);
+            m += if dense { 8 } else { 16 };
+        }
+        lens.extend([ri.saturating_sub(1), ri, ri + 1, 2 * ri, N - ri, (N - ri).saturating_sub(1), (N - ri).saturating_sub(2)]);
+        lens.sort();
+        lens.dedup();
+        for len in lens {
+            let wi = ri + len;
+            if wi > N || (ri == wi && ri > 0) {
+                continue;
+            }
+            let mut a = [0u8; N];
+            a.copy_from_slice(&mem);
+            let mut b = FixedBuf::empty(a);
+            b.wrote(wi);
+            if ri > 0 {
+                b.read_bytes(ri);
+            }
+            if let Some(s) = observe(&b) {
+                let free = N - wi;
+                let d: Vec<u8> = (0..free).map(|i| 0x61 + (i as u8 % 26)).collect();
+                for op in [Op::Shift, Op::ReadAll, Op::ReadBytes(len / 2), Op::ReadBytes(len), Op::IoRead(len.saturating_sub(1)), Op::WriteBytes(d.clone()),
+                           Op::CopyOnce(Resp::Data(d, true)), Op::TryParse(vec![ROp::ReadBytes(len / 2), ROp::ReadAll], false), Op::Deframe(Df::Null)] {
+                    transition(&b, &s, &op, w);
+                    n += 1;
+                }
+            }
+        }
+    }
+    n
+}
+
+/// long frames: a buffer whose only terminator sits at `pos`; every index shape; the deframing calls and the calls that
+/// interact with them (covers thresholds that only long frames / nearly full buffers reach)
+pub fn grid_df<const N: usize>(pos: usize, term: &[u8], w: &mut impl std::io::Write) -> usize {
+    let mut n = 0;
+    let mut mem: Vec<u8> = (0..N).map(|i| 0x62 + (i as u8 % 23)).collect();
+    if pos + term.len() <= N {
+        mem[pos..pos + term.len()].copy_from_slice(term);
+    }
+    if pos >= 1 {
+        mem[0] = 3; // a length prefix for the length-prefixed deframer
+    }
+    for wi in 0..=N {
+        for ri in 0..=wi {
+            if ri == wi && ri > 0 {
+                continue;
+            }
+            // only shapes in which the terminator is unread
+            if !(ri <= pos && pos + term.len() <= wi) && wi != N {
+                continue;
+            }
+            let mut a = [0u8; N];
+            a.copy_from_slice(&mem);
+            let mut b = FixedBuf::empty(a);
+            b.wrote(wi);
+            if ri > 0 {
+                b.read_bytes(ri);
+            }
+            let s = match observe(&b) {
+                Some(s) => s,
+                None => continue,
+            };
+            for op in [Op::Deframe(Df::Line), Op::Deframe(Df::Crlf), Op::Deframe(Df::Null), Op::Deframe(Df::LenPrefix), Op::Shift, Op::ReadAll,
+                       Op::TryParse(vec![ROp::ReadAll], false), Op::ReadBytes((wi - ri) / 2), Op::IoRead(9)] {
+                transition(&b, &s, &op, w);
                 n += 1;
             }
         }
